@@ -223,7 +223,7 @@ Section Stripe.
     assert (E : nth j (combine (combine (seq 0 (length slots)) slots) (map F (seq 0 (length slots)))) (0, SEmpty, F 0) = (j, nth j slots SEmpty, F j)).
     { rewrite combine_nth by (rewrite combine_length, map_length, seq_length; lia).
       rewrite combine_nth by (rewrite seq_length; reflexivity).
-      rewrite seq_nth by exact H. rewrite (nth_indep _ (F 0) (F 0)) by (rewrite map_length, seq_length; exact H).
+      rewrite seq_nth by exact H.
       rewrite (map_nth F). rewrite seq_nth by exact H. reflexivity. }
     rewrite <- E. apply nth_In. rewrite !combine_length, map_length, seq_length. lia.
   Qed.
@@ -245,6 +245,14 @@ Section Stripe.
     rewrite (nth_map_combine_seq0 _ _ None None) by exact Hlt. simpl. rewrite H. reflexivity.
   Qed.
 
+  Lemma nth_slots (disks : list (option cdisk)) pos j d :
+    nth j disks None = Some d ->
+    nth j (map (fun od : option cdisk => match od with Some d => slot_at d pos | None => SEmpty end) disks) SEmpty = slot_at d pos.
+  Proof.
+    revert j. induction disks as [|x t IH]; intros j H; [destruct j; discriminate|].
+    destruct j; simpl in *; [rewrite H; reflexivity | apply IH; exact H].
+  Qed.
+
   Theorem rep_verified_before_blk now c par fs faults pos j d f idx b :
     nth j (c_disks c) None = Some d -> slot_at d pos = SFile f idx b -> fb_state b <> SBlk ->
     nth j faults None <> Some RdNone ->
@@ -264,8 +272,7 @@ Section Stripe.
     set (a0 := mkAcc false false false _ false [] [] 0 0 0) in *.
     set (a := fold_left step xs a0) in *.
     assert (Hsl : nth j slots SEmpty = SFile f idx b).
-    { unfold slots. rewrite (nth_indep _ SEmpty ((fun od : option cdisk => match od with Some d => slot_at d pos | None => SEmpty end) None)) by (rewrite map_length; exact Hlt).
-      rewrite map_nth. rewrite Hd. exact Hs. }
+    { unfold slots. rewrite (nth_slots _ pos j d Hd). exact Hs. }
     assert (Hlen : length slots = length (c_disks c)) by (unfold slots; apply map_length).
     assert (Hin : In (j, SFile f idx b, F j) xs).
     { rewrite <- Hsl. apply nth_combine3. lia. }
@@ -278,8 +285,10 @@ Section Stripe.
       set (proceed := negb (a_err a) && negb (a_io a) && (negb (a_silent a) || match fixed with Some _ => true | None => false end)) in *.
       destruct proceed eqn:Ep.
       + (* the stripe completes *)
-        simpl in Hd'. rewrite (nth_disks_map (fun j0 d0 => complete_disk pos (newhash j0) d0) (c_disks c) j d Hd) in Hd'.
-        inversion Hd'; subst d'; clear Hd'.
+        pose proof (nth_disks_map (fun j0 d0 => complete_disk pos (newhash j0) d0) (c_disks c) j d Hd) as Hn.
+        cbn [c_disks so_content] in Hd'.
+        assert (Ed : Some d' = Some (complete_disk pos (newhash j) d)) by (rewrite <- Hd'; exact Hn).
+        inversion Ed; subst d'; clear Ed Hd' Hn.
         destruct (complete_disk_slot pos (newhash j) d f idx b Hs) as [f2 E2]. rewrite E2 in Hs'. inversion Hs'; subst f' idx' b'; clear Hs'.
         unfold proceed in Ep. apply andb_true_iff in Ep. destruct Ep as [Ep _]. apply andb_true_iff in Ep. destruct Ep as [Ee Ei].
         apply negb_true_iff in Ee. apply negb_true_iff in Ei.
@@ -298,12 +307,14 @@ Section Stripe.
           -- intro Hc. simpl. rewrite Hc.
              assert (Hnh : newhash j = Some (hashf blk len)).
              { unfold newhash. unfold a. rewrite (fold_newhash xs a0 Ebail). simpl. rewrite app_nil_r.
-               rewrite (find_flat_nh (rev xs) j f idx b blk len); [reflexivity | | apply -> in_rev; rewrite <- EF; exact Hin | exact Hc].
+               rewrite (find_flat_nh (rev xs) j f idx b blk len); [reflexivity | | apply -> in_rev; exact Hin | exact Hc].
                rewrite map_rev. apply NoDup_rev. apply combine3_nodup. }
              rewrite Hnh. reflexivity.
       + (* the stripe is skipped: the state of the block is unchanged *)
-        simpl in Hd'. rewrite (nth_disks_map (fun j0 d0 => skipped_disk pos (newhash j0) d0) (c_disks c) j d Hd) in Hd'.
-        inversion Hd'; subst d'; clear Hd'.
+        pose proof (nth_disks_map (fun j0 d0 => skipped_disk pos (newhash j0) d0) (c_disks c) j d Hd) as Hn.
+        cbn [c_disks so_content] in Hd'.
+        assert (Ed : Some d' = Some (skipped_disk pos (newhash j) d)) by (rewrite <- Hd'; exact Hn).
+        inversion Ed; subst d'; clear Ed Hd' Hn.
         destruct (skipped_disk_slot pos (newhash j) d f idx b Hs) as [f2 [b2 [E2 [E3 _]]]]. rewrite E2 in Hs'. inversion Hs'; subst. congruence.
   Qed.
 
@@ -323,8 +334,7 @@ Section Stripe.
     set (a0 := mkAcc false false false _ false [] [] 0 0 0) in *.
     set (a := fold_left step xs a0) in *.
     assert (Hsl : nth j slots SEmpty = SFile f idx b).
-    { unfold slots. rewrite (nth_indep _ SEmpty ((fun od : option cdisk => match od with Some d => slot_at d pos | None => SEmpty end) None)) by (rewrite map_length; exact Hlt).
-      rewrite map_nth. rewrite Hd. exact Hs. }
+    { unfold slots. rewrite (nth_slots _ pos j d Hd). exact Hs. }
     assert (Hlen : length slots = length (c_disks c)) by (unfold slots; apply map_length).
     assert (Hin : In (j, SFile f idx b, RdOk blk len) xs).
     { rewrite <- Hsl. replace (RdOk blk len) with (F j) by (unfold F; rewrite Hsl; exact Hrd). apply nth_combine3. lia. }
@@ -332,10 +342,11 @@ Section Stripe.
     - rewrite Hb. simpl. split; [reflexivity|]. split; [left; reflexivity|]. exists d, f. auto.
     - destruct (a_bail a) eqn:Ebail.
       + simpl. split; [reflexivity|]. split; [left; reflexivity|]. exists d, f. auto.
-      + cbv zeta. rewrite He. simpl. split; [reflexivity|]. split; [right; exact Hn|].
-        match goal with |- context [skipped_disk pos (?nh _)] => set (newhash := nh) end.
-        rewrite (nth_disks_map (fun j0 d0 => skipped_disk pos (newhash j0) d0) (c_disks c) j d Hd).
+      + cbv zeta. rewrite He. cbn [negb andb so_write so_bail so_nerr so_content c_disks].
+        split; [reflexivity|]. split; [right; exact Hn|].
+        set (newhash := fun j0 : nat => match find (fun jh : nat * hval => Nat.eqb (fst jh) j0) (a_newhash a) with Some jh => Some (snd jh) | None => None end).
+        pose proof (nth_disks_map (fun j0 d0 => skipped_disk pos (newhash j0) d0) (c_disks c) j d Hd) as Hnth.
         destruct (skipped_disk_slot pos (newhash j) d f idx b Hs) as [f2 [b2 [E2 [_ E4]]]].
-        exists (skipped_disk pos (newhash j) d), f2. split; [reflexivity|]. rewrite E2. rewrite E4 by congruence. reflexivity.
+        exists (skipped_disk pos (newhash j) d), f2. split; [exact Hnth|]. rewrite E2. rewrite E4 by congruence. reflexivity.
   Qed.
 End Stripe.
